@@ -985,3 +985,100 @@ impl Prop for C12AfterPanic {
             .collect()
     }
 }
+
+// ------------------------------------------------------------------------------------------------
+// C04: arbitrary sequences of dispatch / dispatch_seq / dispatch_par / dispatch_thread_local calls
+
+pub struct C04Calls {
+    pub cfg: GenCfg,
+}
+
+#[derive(Clone, Debug, Serialize, Deserialize)]
+pub struct C04CallsCase {
+    pub plan: Plan,
+    pub calls: Vec<Entry>,
+    pub threads: u8,
+    pub jitter: Vec<u16>,
+}
+
+impl Prop for C04Calls {
+    type Case = C04CallsCase;
+    fn name(&self) -> &'static str {
+        "c04-call-sequences"
+    }
+    fn property(&self) -> &'static str {
+        "C04"
+    }
+    fn rule(&self) -> &'static str {
+        "plans (nested batches with custom / MultiDispatcher controllers, thread-local systems incl. inside batches) x a generated sequence of 1..8 calls drawn from dispatch / dispatch_par / dispatch_seq / dispatch_thread_local on ONE dispatcher x pool size 1..16 x per-system delays; oracle after every call: counter of every ordinary system == number of calls so far that run ordinary systems, every top-level thread-local counter == number of dispatch + dispatch_thread_local calls, inner systems == enclosing batch runs x its dispatch count, nothing is left borrowed; non-trivial = >= 3 calls of >= 2 different kinds on a plan with >= 2 stages or a batch; distinct = case hash"
+    }
+    fn gen(&self, src: &mut Src) -> C04CallsCase {
+        let threads = [1u8, 2, 3, 4, 8, 16][src.pick(6)];
+        let n = 1 + src.pick(8);
+        let calls = (0..n)
+            .map(|_| [Entry::Dispatch, Entry::Par, Entry::Seq, Entry::TlOnly, Entry::Dispatch][src.pick(5)])
+            .collect();
+        let plan = gen_plan(src, &self.cfg);
+        let jitter = (0..40).map(|_| src.raw()).collect();
+        C04CallsCase {
+            plan,
+            calls,
+            threads,
+            jitter,
+        }
+    }
+    fn check(&self, case: &C04CallsCase, lane: usize, st: &mut Stats) -> Result<(), Fail> {
+        let threads = case.threads.clamp(1, 16) as usize;
+        let mut b = build_plan(&case.plan, pool(lane, threads), &BuildOpts::default())
+            .map_err(|e| Fail::keyed("build-or-identify", e))?;
+        oracles::check_complete(&b.flat, &b.layouts)?;
+        let flat = b.flat.clone();
+        for i in 0..flat.sys.len() {
+            b.ctx.jitter_run[i].store((case.jitter.get(i).cloned().unwrap_or(0) % 4) as u32, SeqCst);
+        }
+        let world = fresh_world();
+        b.ctx.reset_counters();
+        let (mut ord, mut tl) = (0u32, 0u32);
+        for (k, entry) in case.calls.iter().enumerate() {
+            let out = run_call(&mut b, &world, *entry, None, Duration::from_millis(3000));
+            if let Some(p) = &out.panic {
+                return Err(Fail::keyed(
+                    "panic",
+                    format!("call {} ({:?}) panicked: {}", k, entry, describe_panic(p)),
+                ));
+            }
+            if entry.runs_ordinary() {
+                ord += 1;
+            }
+            if entry.runs_tl() {
+                tl += 1;
+            }
+            check_counts(&flat, &b.ctx.runs(), &expected_runs(&flat, ord, tl))
+                .map_err(|f| Fail::new(format!("after call {} ({:?}): {}", k, entry, f.msg)))?;
+            check_all_free(&world)?;
+        }
+        let kinds: BTreeSet<String> = case.calls.iter().map(|e| format!("{:?}", e)).collect();
+        let interesting = b.layouts.by_bid[&0].stages.len() >= 2 || flat.sys.iter().any(|s| s.is_batch);
+        if case.calls.len() >= 3 && kinds.len() >= 2 && interesting {
+            st.nontrivial(case, || json!({"calls": case.calls.len()}));
+        }
+        Ok(())
+    }
+    fn simplify(&self, case: &C04CallsCase) -> Vec<C04CallsCase> {
+        let mut out: Vec<C04CallsCase> = simplify_plan(&case.plan)
+            .into_iter()
+            .map(|p| C04CallsCase {
+                plan: p,
+                ..case.clone()
+            })
+            .collect();
+        for i in (0..case.calls.len()).rev() {
+            if case.calls.len() > 1 {
+                let mut c = case.clone();
+                c.calls.remove(i);
+                out.push(c);
+            }
+        }
+        out
+    }
+}
